@@ -299,7 +299,20 @@ def ev_mcall(e, env, ctx):
             body = ev(clo[2], env2, ctx)
             return V("nat", f"({xs.term}.map fun p => {body.term}).sum")
         raise Outside("iter().map().sum() outside the fragment")
+    # `self.remaining_mut()` (the room left in the output buffer): the model writes into an unbounded `Vec`, so the room
+    # is "no bound"; it may only be lowered (`.saturating_sub(n)`) and used as the right operand of `.min(..)`
+    # (CONNECTION_CLOSE put_frame, fix-C05-close-truncation; the bounded writer is Model/CloseBounded.lean, run C05cb)
+    if name == "remaining_mut" and not args and recv == ("path", ["self"]) and "self" not in env:
+        return V("room", None)
     r = ev(recv, env, ctx)
+    if r.kind == "room" and name == "saturating_sub" and len(args) == 1 and ev(args[0], env, ctx).kind == "nat":
+        return r
+    if name == "min" and len(args) == 1 and r.kind == "nat" and args[0] != ("mcall", ("path", ["self"]), "remaining_mut", []):
+        a = ev(args[0], env, ctx)
+        if a.kind == "room":
+            ctx.assume.append("`.min(<self.remaining_mut() minus the length field>)`: unbounded buffer (the model's `Vec`), so the minimum is the left operand")
+            return r
+        raise Outside(f"`.min()` with a {a.kind}")
     if name == "encoding_size" and not args:
         if r.kind in ("varint", "sid"):
             return V("nat", f"varintSize {par(r.term)}")
